@@ -99,6 +99,15 @@ def rotate_orbs(ctx):
         ctx.ob("KIND-2", "rotate_orbs: the rotation applied is the matrix the caller passed", False,
                f"{show(factors[0], maxdepth=2)[:60]} replaces mo_coeff by one of its factors: C D with D != 1 in general, while "
                f"the caller keeps rotating orbitals and walkers with C", fi)
+    # the unrotated Hamiltonian stays usable: energies in both bases are computed from the input and from the result.
+    # Under jit the body's `ham_data[...] = ...` acts on the traced copy of the dictionary; run eagerly it overwrites the
+    # caller's entries with the rotated ones
+    from ..rules.pitfalls import param_mutations
+    muts = [] if fi.is_jit else param_mutations(fi.node, methods=True)
+    ctx.ob("MUT-1", "rotate_orbs: the Hamiltonian it is handed is not modified in place", not muts,
+           "; ".join(f"line {ln}: {txt} overwrites the caller's '{prm}' (the function is not traced by jit)"
+                     for ln, txt, prm in muts[:2]) or
+           ("traced by jit: stores act on the traced copy" if fi.is_jit else "no store into a parameter"), fi)
     # one rotation matrix only
     mats = {x.uid for x in subterms(R) if x.op == "sym" and x.args[0] not in ("ham_data", "self")}
     ctx.ob("KIND-2", "rotate_orbs: a single rotation matrix is applied on both sides", mats == {sym("mo_coeff").uid},
